@@ -77,10 +77,12 @@ def def_index(tree):
     return idx
 
 
-def recover(parser, errors, f):
-    """('same'|'diff'|'unsupported'|'exc:Name', dump-or-message, source)"""
+def recover(parser, errors, f, inspect_utils=None):
+    """('same'|'diff'|'unsupported'|'exc:Name', dump-or-message, source); called the way
+    transpiler.transform_function calls it (future features of the function's module)"""
     try:
-        node, source = parser.parse_entity(f, ())
+        futures = inspect_utils.getfutureimports(f) if inspect_utils is not None else ()
+        node, source = parser.parse_entity(f, future_features=futures)
     except errors.UnsupportedLanguageElementError as e:
         return 'unsupported', str(e)[:200], None
     except Exception as e:
@@ -138,7 +140,7 @@ class DefCase:
         except Exception as e:
             self.src = None
             self.src_err = type(e).__name__
-        kind, payload, source = recover(parser, errors, f)
+        kind, payload, source = recover(parser, errors, f, inspect_utils)
         self.kind, self.payload, self.source = kind, payload, source
 
     def case(self):
@@ -575,6 +577,26 @@ class Checker:
             if len(run.samples) < 4 and len(spanning) > 1 and real[0] == 'ok' and not failures:
                 run.sample({'kind': 'lambda', 'line': text.split('\n')[def_line - 1], 'recovered': ast.unparse(true_node), 'behaviour': beh})
             spec = inspect.getfullargspec(fn)
+            # the CPython facts C15_lambda_partial takes as hypotheses, checked on this case
+            a_ = true_node.args
+            facts = {
+                'creating node starts at co_firstlineno': true_node.lineno == def_line,
+                'getfullargspec = posonly ++ args, vararg, kwarg, kwonly of the creating node': (
+                    list(spec.args) == names_of(a_.posonlyargs) + names_of(a_.args)
+                    and spec.varargs == (a_.vararg.arg if a_.vararg else None)
+                    and spec.varkw == (a_.kwarg.arg if a_.kwarg else None)
+                    and list(spec.kwonlyargs) == names_of(a_.kwonlyargs)),
+                'top-level statement line numbers are non-decreasing': all(
+                    tops[i][0] <= tops[i + 1][0] for i in range(len(tops) - 1)),
+            }
+            for fk, fv in facts.items():
+                if not fv:
+                    self.disagree('cpython-facts', {'fact': fk, 'lambda': case['lambda'], 'def_line': def_line})
+            self.ncorr['cpython-facts'] += 1
+            in_search = any(true_node in lams for ln, lams in tops if ln <= def_line)
+            self.hist['lambda:creating-node-%s-the-searched-statements' % ('in' if in_search else 'NOT-in')] += 1
+            if in_search and all(facts.values()) and not py_amb and real[0] == 'ok' and real[1] != true_node._c15_id:
+                self.disagree('theorem-instance-lambda', {'lambda': case['lambda'], 'real': list(real)})
             opt = lambda x: ['none'] if x is None else ['some', x]
             spec_sx = sexp([list(spec.args), opt(spec.varargs), opt(spec.varkw), list(spec.kwonlyargs)])
 
@@ -707,7 +729,9 @@ def check(run, only_case=None):
     for m in range(nmods):
         rng = random.Random(run.rng.getrandbits(64))
         exotic = m % 6 == 5
-        g = G.DefGen(rng, tabs=(m % 4 == 3), exotic=exotic, defects=(m % 3 != 0))
+        g = G.DefGen(rng, tabs=(m % 4 == 3), exotic=exotic, defects=(m % 3 != 0), future=(m % 5 == 2))
+        if m % 5 == 2:
+            chk.hist['modules-with-__future__-imports'] += 1
         text = g.module(nfuncs=rng.randrange(6, 12), no_final_newline=(m % 5 == 4))
         res = chk.def_module(text, g.funcs, 'gen-def:%d' % m)
         blocks += [dc.src for dc in res]
@@ -748,12 +772,16 @@ def check(run, only_case=None):
     if run.driver_ok:
         for op, kind in (('unfold', 'correspondence'), ('dedent', 'correspondence'), ('select', 'correspondence'),
                          ('class-predicates', 'correspondence'), ('spec', 'checker'), ('theorem-instance', 'checker'),
-                         ('theorem-instance-unfold', 'checker'), ('tokens-preserved', 'checker')):
+                         ('theorem-instance-unfold', 'checker'), ('tokens-preserved', 'checker'),
+                         ('cpython-facts', 'assumption'), ('theorem-instance-lambda', 'checker')):
             d = chk.dis.get(op, [])
             shown = [x for x in d if x is not None]
             name = {'spec': 'checker:dedent-spec-on-real-output', 'theorem-instance': 'checker:C15_dedent_text-predicts-real-output',
                     'theorem-instance-unfold': 'checker:C15_unfold_partial-predicts-real-output',
-                    'tokens-preserved': 'checker:tokens-preserved-by-unfolding-under-hypotheses'}.get(op, 'correspondence:c15.' + op)
+                    'tokens-preserved': 'checker:tokens-preserved-by-unfolding-under-hypotheses',
+                    'cpython-facts': 'assumption:cpython-facts-used-by-C15_lambda_partial-hold-on-every-case',
+                    'theorem-instance-lambda': 'checker:C15_lambda_partial-hypotheses-imply-the-right-lambda',
+                    }.get(op, 'correspondence:c15.' + op)
             run.oblige(name, kind, not d, ('%d disagreements; first: ' % len(d)) + json.dumps(shown[:2])[:1500] if d else '')
     else:
         run.oblige('correspondence:c15', 'correspondence', False, 'driver unavailable')
